@@ -75,6 +75,31 @@ pub fn parse_opt_lt(s: &str) -> Option<Option<Lt>> {
     }
 }
 
+/// Binary detection mode of the searcher (`BinaryDetection::{none,quit,convert}`).
+#[derive(Clone, Copy, Debug, PartialEq, Eq)]
+pub enum Bin {
+    None,
+    Quit(u8),
+    Convert(u8),
+}
+
+impl Bin {
+    pub fn to_sx(self) -> String {
+        match self {
+            Bin::None => "(bin none)".to_string(),
+            Bin::Quit(b) => format!("(bin quit {})", b),
+            Bin::Convert(b) => format!("(bin convert {})", b),
+        }
+    }
+    fn detection(self) -> BinaryDetection {
+        match self {
+            Bin::None => BinaryDetection::none(),
+            Bin::Quit(b) => BinaryDetection::quit(b),
+            Bin::Convert(b) => BinaryDetection::convert(b),
+        }
+    }
+}
+
 #[derive(Clone, Debug, PartialEq, Eq)]
 pub struct Cfg {
     pub lt: Lt,
@@ -85,12 +110,13 @@ pub struct Cfg {
     pub ln: bool,
     pub son: bool,
     pub ml: bool,
+    pub bin: Bin,
 }
 
 impl Cfg {
     pub fn to_sx(&self) -> String {
         format!(
-            "(cfg (lt {}) (inv {}) (a {}) (b {}) (pt {}) (ln {}) (son {}) (ml {}))",
+            "(cfg (lt {}) (inv {}) (a {}) (b {}) (pt {}) (ln {}) (son {}) (ml {}) {})",
             self.lt.name(),
             self.inv as u8,
             self.a,
@@ -98,7 +124,8 @@ impl Cfg {
             self.pt as u8,
             self.ln as u8,
             self.son as u8,
-            self.ml as u8
+            self.ml as u8,
+            self.bin.to_sx()
         )
     }
     /// The configuration as `SearcherBuilder::build` stores it (the model's `Config` is the built
@@ -113,7 +140,7 @@ impl Cfg {
     }
     /// one-token text form used in case lines, e.g. `lf:i0:a1:b0:p0:n1:s0:m0`
     pub fn token(&self) -> String {
-        format!(
+        let base = format!(
             "{}:i{}:a{}:b{}:p{}:n{}:s{}:m{}",
             self.lt.name(),
             self.inv as u8,
@@ -123,11 +150,16 @@ impl Cfg {
             self.ln as u8,
             self.son as u8,
             self.ml as u8
-        )
+        );
+        match self.bin {
+            Bin::None => base,
+            Bin::Quit(b) => format!("{}:q{}", base, b),
+            Bin::Convert(b) => format!("{}:c{}", base, b),
+        }
     }
     pub fn parse_token(s: &str) -> Option<Cfg> {
         let p: Vec<&str> = s.split(':').collect();
-        if p.len() != 8 {
+        if p.len() != 8 && p.len() != 9 {
             return None;
         }
         fn num(s: &str, pre: char) -> Option<usize> {
@@ -153,6 +185,15 @@ impl Cfg {
             ln: flag(p[5], 'n')?,
             son: flag(p[6], 's')?,
             ml: flag(p[7], 'm')?,
+            bin: if p.len() == 9 {
+                if let Some(b) = num(p[8], 'q') {
+                    Bin::Quit(b as u8)
+                } else {
+                    Bin::Convert(num(p[8], 'c')? as u8)
+                }
+            } else {
+                Bin::None
+            },
         })
     }
     fn builder(&self) -> SearcherBuilder {
@@ -165,13 +206,19 @@ impl Cfg {
             .line_number(self.ln)
             .stop_on_nonmatch(self.son)
             .multi_line(self.ml)
-            .binary_detection(BinaryDetection::none())
+            .binary_detection(self.bin.detection())
             .bom_sniffing(false)
             .memory_map(MmapChoice::never());
         b
     }
     pub fn searcher(&self) -> Searcher {
         self.builder().build()
+    }
+    /// same, with a heap limit (the multi-line reader path then fills its buffer with its own read loop)
+    pub fn searcher_heap(&self, limit: usize) -> Searcher {
+        let mut b = self.builder();
+        b.heap_limit(Some(limit));
+        b.build()
     }
     /// same, with memory maps enabled (used by the path strategy)
     pub fn searcher_mmap(&self) -> Searcher {
@@ -201,6 +248,7 @@ pub fn gen_cfg(rng: &mut Rng, max_ctx: usize) -> Cfg {
         ln: rng.chance(3, 4),
         son: rng.chance(1, 5),
         ml: false,
+        bin: Bin::None,
     }
 }
 
